@@ -109,3 +109,5 @@ P.bound('loud-failures', 'dyn/C02.py', 'loud',
         '"contraction => solved within the default cap" and a native count of the sweeps per period')
 P.bound('failure-catalogue', 'dyn/C02.py', 'residual', 'the catalogue of dyn/C02.py (diverging, overflowing, zero-division, domain-error systems)',
         'native cross-check: failures are value / convergence errors and leave equal-length series')
+P.bound('rejections', 'dyn/C11.py', 'rejections', 'catalogue of invalid model-level requests, each made 3 times on the same objects',
+        'an invalid request is rejected every time it is made (no state left behind by a failed attempt turns a later attempt into an answer)')
